@@ -7,6 +7,7 @@ import (
 	"encoding/json"
 	"fmt"
 	"os"
+	"os/exec"
 	"path/filepath"
 	"sort"
 	"strings"
@@ -561,4 +562,31 @@ func firstLine(err error) string {
 		return ""
 	}
 	return strings.SplitN(err.Error(), "\n", 2)[0]
+}
+
+// C09: the routes file generated for every engine type-checks against the engine, the controllers and the
+// authorization package of the fixture project (go build of the rendered packages).
+func TestVerifC09RenderedCompiles(t *testing.T) {
+	TestRender(t)
+	failed := false
+	for _, engine := range []string{"gin", "echo", "mux", "chi", "fiber"} {
+		cmd := exec.Command("go", "build", "./out/"+engine)
+		cmd.Env = append(os.Environ(), "GOFLAGS=-mod=mod", "GOPROXY=off")
+		if out, err := cmd.CombinedOutput(); err != nil {
+			fmt.Printf("VERIF-FAIL: class=C09-rendered-does-not-compile-%s %s\n", engine, strings.ReplaceAll(firstN(string(out), 600), "\n", " ; "))
+			failed = true
+		}
+	}
+	fmt.Println("VERIF-CASES: 5 (rendered routes packages, one per engine)")
+	fmt.Println("VERIF-DONE")
+	if failed {
+		t.Fail()
+	}
+}
+
+func firstN(s string, n int) string {
+	if len(s) > n {
+		return s[:n]
+	}
+	return s
 }
